@@ -726,6 +726,43 @@ def string_fold_order(ctx):
     if n == 0:
         ctx.observe('BinaryOp._eval_string is not a plain `a + b` return; '
                     'string folding order undecided')
+    # BinaryOp.type admits two operators classes on strings: + and the
+    # comparisons (INTEGER result).  eval() sends both to _eval_string, so
+    # the concatenation must be conditional on the operator
+    from ..cfg import build_cfg, repo_noreturn
+    rule2 = 'C02.string-folder-distinguishes-comparisons'
+    ctx.rule(rule2, 'every concatenating return of BinaryOp._eval_string is '
+             'reached only after a test of the operator (a dominating '
+             'condition or an earlier returning `if` that mentions self.op): '
+             'a comparison of two constant strings has an INTEGER result')
+    ev = repo.func('qbee.expr', 'BinaryOp.eval')
+    routes_all = not any(
+        isinstance(i, ast.If) and 'self.op' in unparse(i.test)
+        for i in ast.walk(ev.node))
+    cfg = build_cfg(f.node, repo_noreturn)
+    for node in cfg.stmt_nodes():
+        r = node.ast
+        if not (node.kind == 'stmt' and isinstance(r, ast.Return) and
+                isinstance(r.value, ast.BinOp) and
+                isinstance(r.value.op, ast.Add)):
+            continue
+        conds = [unparse(t.ast.test) for t, lab in cfg.conditions(node)]
+        earlier = [unparse(i.test) for i in walk_shallow(f.node)
+                   if isinstance(i, ast.If) and i.lineno < r.lineno and
+                   any(isinstance(b, ast.Return) for b in ast.walk(i))]
+        tested = any('self.op' in t for t in conds + earlier)
+        construct = f'{f.file}:BinaryOp._eval_string:operator-tested'
+        ctx.instance(rule2, construct, sample={
+            'conditions': conds, 'earlier_returning_ifs': earlier,
+            'eval_routes_every_string_operator_here': routes_all})
+        if routes_all and not tested:
+            ctx.finding(rule2, construct,
+                        'BinaryOp._eval_string returns the concatenation '
+                        'whatever the operator: a constant string comparison '
+                        '("a" < "b") is folded to a string, from which the '
+                        'folder then builds an INTEGER literal (ValueError '
+                        'in the compiler at -O1 and above)', f.file,
+                        r.lineno)
 
 
 def fold_returns(ctx):
